@@ -505,12 +505,53 @@ def jvals(values):
     return [[list(k) if isinstance(k, tuple) else k, v] for k, v in values.items()]
 
 
-def run_case(ctx, inst, suite="K5.closest_flow", brute=False):
+def edit_in_place(G, inst):
+    """the caller gives its graph object the observations of `inst` (same nodes and edges): attributes set / removed in place"""
+    for u, v in G.edges():
+        G[u][v].pop("flow", None)
+    for v in G.nodes():
+        G.nodes[v].pop("flow", None)
+    H = graph_of(inst)
+    for u, v, d in H.edges(data=True):
+        G[u][v].update(d)
+    for v, d in H.nodes(data=True):
+        G.nodes[v].update(d)
+
+
+def reused_graph_cases(ctx, n, suite="K5.reused_graph_object"):
+    """two or three models in a row on ONE graph object whose observations (and the models' ignore lists, scalings, starts
+    and ends) change in between: every model has to answer for the graph as it is when the model is built"""
+    rng = ctx.rng
+    for _ in range(n):
+        origin = rng.choice(["node", "node", "edge"])
+        first = gen_instance(rng, origin=origin, eps=None)
+        G = graph_of(first)
+        run_case(ctx, first, suite=suite, G_in=G)
+        for _ in range(rng.randint(1, 2)):
+            # fresh observations and a fresh ignore list on the nodes / edges of the first instance
+            inst = dict(first)
+            integer = wint(first) or first.get("ints_as_int", False)
+            if origin == "node":
+                f = rand_values(rng, first["nodes"], integer)
+                inst["node_flow"] = [[v, qstr(f[v])] for v in first["nodes"]]
+                inst["ignore"] = [v for v in first["nodes"] if rng.random() < 0.2]
+                inst["scaling"] = []
+            else:
+                keys = [tuple(e) for e in first["edges"]]
+                f = rand_values(rng, keys, integer)
+                inst["flow"] = [[u, v, qstr(f[(u, v)])] for (u, v) in keys]
+                inst["ignore"] = [list(e) for e in keys if rng.random() < 0.2]
+                inst["scaling"] = []
+            edit_in_place(G, inst)
+            run_case(ctx, inst, suite=suite, G_in=G)
+
+
+def run_case(ctx, inst, suite="K5.closest_flow", brute=False, G_in=None):
     fp = ctx.fp
     hist = features(inst)
     eps = inst.get("epsilon")
     try:
-        G_in = graph_of(inst)
+        G_in = graph_of(inst) if G_in is None else G_in
         m = build(fp, inst, G_in)
     except ValueError as e:
         ctx.rep.count(suite, inst, nontrivial=False, hist=hist + ["ctor ValueError"])
@@ -669,6 +710,7 @@ def run(ctx):
             inst["starts"] = rng.sample(inst["nodes"], 1)
             inst["ends"] = rng.sample(inst["nodes"], 1)
         run_case(ctx, inst, suite="K5.cyclic_starts_ends")
+    reused_graph_cases(ctx, ctx.n(60, 600))
     # ignored edges that do not carry the attribute, with and without epsilon
     for it in range(ctx.n(150, 1500)):
         inst = gen_instance(rng, origin="edge", eps=rng.choice([None, "1/10", "1/4", "1/2"]))
